@@ -117,6 +117,10 @@ type cfg struct {
 	pair      bool // state-cookie manipulation x pkce-cookie manipulation (full product) instead of one manipulation
 	rich      bool // thorough: POST form callbacks, missing code, partially different keys, empty value
 	scopes    []string // configured scopes (nil: the default list with openid)
+	// related-keys parts (relkeys_test.go): the cookie handler's keys as configured, the related foreign key pairs
+	rel           bool
+	hashK, blockK []byte
+	fks           []fk
 }
 
 // scopeList is the scope list the RP is configured with: "the authorization URL always carries
@@ -128,14 +132,28 @@ func (p *cfg) scopeList() []string {
 	return scopes
 }
 
-func (p *cfg) hashKey() []byte { return k1Hash }
+func (p *cfg) hashKey() []byte {
+	if p.rel {
+		return p.hashK
+	}
+	return k1Hash
+}
 func (p *cfg) blockKey() []byte {
+	if p.rel {
+		return p.blockK
+	}
 	if p.enc {
 		return k1Block
 	}
 	return nil
 }
 func (p *cfg) otherBlock() []byte {
+	if p.rel {
+		if p.blockK == nil {
+			return nil
+		}
+		return []byte(k2BlkSrc[:len(p.blockK)])
+	}
 	if p.enc {
 		return k2Block
 	}
@@ -201,6 +219,9 @@ func parseCb(op string) (o cbOp, ok bool) {
 }
 
 func (p *cfg) ops(s S) []string {
+	if p.rel {
+		return p.relOps(s)
+	}
 	var ops []string
 	if s.N < p.maxStarts {
 		ops = append(ops, "start")
@@ -650,7 +671,8 @@ func (w *world) start(judge bool) (engine.Result, string) {
 type prov struct {
 	present bool
 	k       int    // >0: byte-identical to the cookie start k handed to this browser
-	class   string // missing | forged | tampered | (authentic: "")
+	class   string // missing | forged | related-key | tampered | (authentic: "")
+	equiv   bool   // minted under a byte-wise different key pair that is the same key to HMAC (RFC 2104): Either
 }
 
 func (w *world) callback(o cbOp, judge bool) (engine.Result, string) {
@@ -705,6 +727,12 @@ func (w *world) callback(o cbOp, judge bool) (engine.Result, string) {
 	case o.sc == "asis":
 	case o.sc == "none":
 		sHas = false
+	case strings.HasPrefix(o.sc, "fk:"):
+		f, ok := p.fkByName(o.sc[3:])
+		if !ok {
+			return engine.Result{Rule: "internal", Outcome: "unknown related key " + o.sc}, ""
+		}
+		sv, sHas, sProv.class, sProv.equiv = mint(f.hash, f.block, "state", forgedState), true, "related-key", f.equiv
 	case o.sc[0] == 'a':
 		k, _ := strconv.Atoi(o.sc[1:])
 		sv, sHas = w.stateCk[k-1], w.stateCk[k-1] != ""
@@ -734,6 +762,12 @@ func (w *world) callback(o cbOp, judge bool) (engine.Result, string) {
 	case o.pc == "asis":
 	case o.pc == "none":
 		pHas = false
+	case strings.HasPrefix(o.pc, "fk:"):
+		f, ok := p.fkByName(o.pc[3:])
+		if !ok {
+			return engine.Result{Rule: "internal", Outcome: "unknown related key " + o.pc}, ""
+		}
+		pv, pHas, pProv.class, pProv.equiv = mint(f.hash, f.block, "pkce", forgedVer), true, "related-key", f.equiv
 	case o.pc[0] == 'a':
 		k, _ := strconv.Atoi(o.pc[1:])
 		pv, pHas = w.pkceCk[k-1], w.pkceCk[k-1] != ""
@@ -859,6 +893,11 @@ func (w *world) judgeCallback(o cbOp, sProv, pProv prov, match bool, qstate, cod
 		// statement: "With a cookie handler configured ..." — property does not apply
 		return engine.OK("no-cookie-handler/either", outcome)
 	}
+	// ---- (0) a cookie minted under a byte-wise different hash key that HMAC itself cannot tell from the RP's
+	// (zero padding / hashing of the key, RFC 2104): not "another key" to any HMAC user — Either
+	if sProv.equiv {
+		return engine.OK("hmac-identical-key/state-cookie/either", outcome)
+	}
 	// ---- (1) state does not match the browser's signed cookie: nothing may happen
 	if !match {
 		class := sProv.class // missing | forged | tampered
@@ -890,6 +929,9 @@ func (w *world) judgeCallback(o cbOp, sProv, pProv prov, match bool, qstate, cod
 		return engine.OK("match/error-param/either", outcome)
 	}
 	pkceOK := !p.pkce || pProv.k > 0
+	if !pkceOK && pProv.equiv {
+		return engine.OK("hmac-identical-key/pkce-cookie/either", outcome)
+	}
 	if !pkceOK {
 		// PKCE enabled and no verifier cookie of this RP presented: whatever verifier would be sent is
 		// not "the one stored in the cookie"; a request without verifier is unbound as well.
@@ -1119,6 +1161,22 @@ func TestCheck(t *testing.T) {
 	})
 	add("oidc-single-scope", func(p *cfg) { p.oidc, p.scopes, p.maxStarts, p.depth, p.pair = true, []string{"openid"}, 2, 3, false })
 	add("oauth-nocookiehandler", func(p *cfg) { p.noCookie, p.maxStarts, p.depth, p.rich, p.pair = true, 2, 3, false, false })
+	// related keys: cookie-handler key lengths x key pairs related to the configured ones (relkeys_test.go)
+	rel, skipped := relParts(c)
+	if why := relSelfTest(rel); why != "" {
+		c.Internal("related-keys family: " + why)
+	}
+	nfk := 0
+	for _, p := range rel {
+		nfk = max(nfk, len(p.fks))
+	}
+	c.Extra("related_keys", map[string]any{"parts": len(rel), "configurations_outside_property_skipped": skipped,
+		"max_related_key_pairs_per_configuration": nfk})
+	c.Assume(
+		"parts keys-*: a cookie-handler configuration gorilla/securecookie cannot mint a cookie with (empty hash key, block key that is not 16/24/32 bytes) is outside the property: skipped and listed in coverage.related_keys",
+		"parts keys-*: HMAC (RFC 2104) zero-pads a key shorter than 64 bytes and hashes a longer one: a cookie minted under a hash key that differs from the RP's only in that way (same block key) is minted under the same key as far as any HMAC user can tell: Either; every other related key pair must lead to the unauthorized handler and no provider request",
+	)
+	parts = append(parts, rel...)
 	for _, p := range parts {
 		engine.RunE2(c, engine.E2[S]{
 			Part:      p.name,
